@@ -126,3 +126,19 @@ func trunc(s string, n int) string {
 	}
 	return s[:n] + fmt.Sprintf("…(+%d bytes)", len(s)-n)
 }
+
+var sandboxSeq int
+
+// sandboxDir returns a fresh per-run directory for Save targets.
+func sandboxDir() string {
+	base := os.Getenv("VERIF_SANDBOX")
+	if base == "" {
+		base = os.TempDir()
+	}
+	sandboxSeq++
+	d := fmt.Sprintf("%s/simsb-%d-%d", base, os.Getpid(), sandboxSeq)
+	os.MkdirAll(d, 0755)
+	return d
+}
+
+func cleanSandbox(d string) { os.RemoveAll(d) }
